@@ -2,20 +2,26 @@
 import json, os
 PROPERTIES = ['C10', 'C02']
 BOUNDS = {
-    'quick': ('8-bit types (unsigned char, signed char): every value x every base 2..36 symbolic, buffer length 0..max text+2 enumerated (to_chars), 0..5 and 9..10 (from_integer); '
-              '16-bit types: every value, base enumerated {2,10,16,36}, buffer lengths around the text-length boundaries; '
-              '32/64-bit types (unsigned, int, unsigned long, long): base enumerated {2,10,16,36}, value symbolic in windows ANCHOR+[-2^15,2^15) around 0, the type limits and the largest power of the base; '
-              'to_string<CAP>: int/unsigned/long/unsigned long, CAP around the text-length boundaries, same windows; round trip: 8-bit all values x all bases, wider types per base/window'),
-    'thorough': ('adds char, long long, unsigned long long; 16-bit: every value x every base symbolic, all buffer lengths 0..max text+2; '
-                 '32-bit: full value range per base {2,8,10,16,36} against the reference text (z3), every power of the base as window anchor against std::to_chars; '
-                 '64-bit: windows around 0, limits, limits/base and every power of the base {2,8,10,16,36}; 64-bit full range only for bases 2 and 16'),
+    'quick': ('8-bit types (unsigned char, signed char): every value x every base 2..36, both symbolic; to_chars for every buffer length 0..longest text+2 (enumerated), from_integer for lengths {0,1,2,4,longest,longest+1}, '
+              'default-base overload for lengths {0,1,3,4}, round trip from_chars(to_chars(v)) for all values x bases. '
+              '16-bit types: every value, base enumerated {2,10,16,36}, buffer lengths {0,1,digits-1,digits,longest text+1}. '
+              '32/64-bit types (unsigned, int, unsigned long, long): base enumerated {10,16} (also 2 and 36 for unsigned, 36 for long); value symbolic inside windows ANCHOR+[-2^15,2^15) (wrapping) around '
+              '0, the maximum, 2^(bits-1) (the minimum of the signed type), the largest power of the base and its negative (64-bit with base 10/36: 0, maximum, 2^63 only); buffer lengths text length of the anchor -1/+0/+1. '
+              'to_string<CAP>: int, unsigned, long, unsigned long, windows around 0 / maximum / minimum, CAP = text length and text length+1 (1..3 around 0). '
+              'Outside: values of 32/64-bit types outside the windows; bases other than the enumerated ones for types wider than 8 bits.'),
+    'thorough': ('quick grid plus: char; 16-bit types with value and base 2..36 both symbolic for buffer lengths {0,1,5,6,16,17} (kissat); more (type, base) pairs (bases 2, 8, 36; long long, unsigned long long); '
+                 'base 10: every second power of ten and maximum/10 as additional window anchors for unsigned, int, unsigned long; '
+                 'full 32-bit value range for unsigned (bases 2,8,10,16,36) and int (bases 2,8,16,36) at buffer lengths {1,digits,longest+1} against the reference text ref_text (exported VC decided by z3), '
+                 'with ref_text == std::to_chars proved for all 8/16-bit values x bases, for the 32-bit power-of-two bases over the full range and inside the windows for base 10/36. '
+                 'Outside: full range of int in base 10 and of every 64-bit type (no verdict within 900 s from kissat, cadical, z3, cvc5: only the windows are covered).'),
 }
 ASSUMPTIONS = [
-    'C10/to_chars: base in 2..36 (documented precondition); [first,last) is a valid range of exactly LEN bytes (own object, so any access outside is reported)',
-    'C10/to_chars: "fits" is decided by the length of the std::to_chars text (q_oracle_fit proves std::to_chars succeeds on a LEN-byte buffer iff its text has <= LEN characters)',
+    'C10/to_chars: base in 2..36 (documented precondition); [first,last) is its own object of exactly LEN bytes, so any access outside it is reported by the pointer checks',
+    'C10/to_chars: "fits" is decided by the length of the std::to_chars text in a buffer of sizeof(T)*8+1 bytes (q_oracle_fit proves that std::to_chars succeeds on a LEN-byte buffer iff that text has <= LEN characters and then writes the same text)',
     'C10/to_chars: on success the bytes in [ptr,last) must keep their values (libstdc++ behaviour); on value_too_large the buffer contents are unspecified and not compared',
+    'C10/from_integer (default options, NUL-terminated): specification = std::to_chars text followed by a terminator when text length+1 <= length, otherwise error overflow; the value of .end on error is not specified and not compared',
     'C10/to_string: texts longer than Capacity violate the precondition of to_string<Capacity> (contract check, C05) and are assumed away',
-    'C10/wide types: where REFORACLE is set the oracle is the reference quotient/remainder loop ref_text, proved equal to std::to_chars by q_oracle_model (8/16-bit: all values and bases; wide types: inside the windows) and compared natively by model_check.cpp',
+    'C10/wide types: where REFORACLE is set the oracle is the reference quotient/remainder loop ref_text of driver.cpp, linked to std::to_chars by q_oracle_model (solver) and harness/from_chars/model_check.cpp (native, edge and random 32/64-bit values, all bases; run by hand, not part of ./vf check)',
 ]
 US = {'ll_ctlz_8.0': 10, 'll_ctlz_16.0': 18, 'll_ctlz_32.0': 34, 'll_ctlz_64.0': 66, 'll_ctpop_32.0': 34, 'll_ctpop_64.0': 66, 'll_undef_bytes.0': 80, 'll_memcpy.0': 80, 'll_memset.0': 80, 'll_memmove.0': 80, 'll_memmove.1': 80}
 TYPES = {'unsigned char': (8, 0), 'signed char': (8, 1), 'char': (8, 1), 'unsigned short': (16, 0), 'short': (16, 1), 'unsigned': (32, 0), 'int': (32, 1),
@@ -115,7 +121,7 @@ def queries(tier, prop='C10'):
     for t in ['unsigned short', 'short']:
         bits, s = TYPES[t]
         if thorough:
-            for ln in (0, 1, 2, 5, 6, 15, 16, 17, 19):
+            for ln in (0, 1, 5, 6, 16, 17):
                 cfg = {'TY': t, 'LEN': ln, 'WTL': int(ln < bits - s), 'WTLN': int(ln <= bits - s)}
                 out.append(q('q_to_chars', cfg, bits + 4, ub, 'kissat', 900))
                 if ln in (1, 6, 17): out.append(q('q_from_integer', cfg, bits + 4, ub, 'kissat', 900))
@@ -133,11 +139,12 @@ def queries(tier, prop='C10'):
                     out.append(q('q_roundtrip', cfg, max(nd + 3, ln + 2), ub))
                     if not ub: out.append(q('q_oracle_model', cfg, max(nd + 3, ln + 2), ub))
                     if b == 10: out.append(q('q_to_chars_def', cfg, max(nd + 3, ln + 2), ub))
-    # ---- 32/64-bit: base enumerated; value in windows around the anchors; thorough adds more anchors, bases, types and full-range queries
+    # ---- 32/64-bit: base enumerated; value in windows around the anchors
+    QUICKWIDE = [(t, b) for t in ('unsigned', 'int', 'unsigned long', 'long') for b in (10, 16)] + [('unsigned', 2), ('unsigned', 36), ('long', 36)]
+    wide = list(QUICKWIDE)
     if thorough:
-        wide = [(t, b) for t in ('unsigned', 'int', 'unsigned long', 'long') for b in (2, 8, 10, 16, 36)] + [(t, b) for t in ('unsigned long long', 'long long') for b in (10, 16)]
-    else:
-        wide = [(t, b) for t in ('unsigned', 'int', 'unsigned long', 'long') for b in (10, 16)] + [('unsigned', 2), ('unsigned', 36), ('long', 36)]
+        wide += [('int', 2), ('unsigned', 8), ('int', 8), ('int', 36), ('unsigned long', 2), ('long', 2), ('unsigned long', 8), ('unsigned long', 36),
+                 ('unsigned long long', 10), ('long long', 10), ('unsigned long long', 16), ('long long', 16)]
     def add(entry, cfg, uw, t, a, b, ln, sv='minisat', bud=120):
         if alive(entry, t, a, b, ln): out.append(q(entry, cfg, uw, ub, sv, bud))
     for t, b in wide:
@@ -145,21 +152,23 @@ def queries(tier, prop='C10'):
         nd = ndig((1 << (bits - s)) - 1, b)
         mt = maxtext(t, b)
         heavy = bits == 64 and b not in (2, 8, 16)                     # 64-bit division by a non power of two: the costly windows
-        anc = anchors(t, b, thorough and b == 10 and t in ('unsigned', 'int', 'unsigned long', 'long'))
-        if heavy and not thorough: anc = [x for x in anc if x in (0, (1 << (bits - s)) - 1, 1 << (bits - 1))]
-        for a in anc:
+        more = thorough and b == 10 and t in ('unsigned', 'int', 'unsigned long')      # thorough: every (second) power of ten, limits/10 as anchors
+        base_anc = anchors(t, b, False)
+        if heavy: base_anc = [x for x in base_anc if x in (0, (1 << (bits - s)) - 1, 1 << (bits - 1))]
+        for a in (sorted(set(base_anc) | set(anchors(t, b, True))) if more else base_anc):
+            extra = a not in base_anc
             na = textlen(t, a, b)
             for ln in ([0, 1, 2] if a == 0 else [na - 1, na, na + 1]):
                 cfg = {'TY': t, 'LEN': ln, 'BASE': b, 'ANCHOR': '%dULL' % a}
                 uw = max(nd + 3, ln + 2)
                 sv, bud = ('minisat', 120) if not heavy else ('kissat', 300 if thorough else 120)
                 if ln != na - 1 or not heavy: add('q_to_chars', cfg, uw, t, a, b, ln, sv, bud)
-                if ln in (2, na + 1):
+                if ln in (2, na + 1) and not extra:
                     add('q_from_integer', cfg, uw, t, a, b, ln, sv, bud)
-                    if not heavy or a == 0 or thorough: add('q_roundtrip', cfg, uw, t, a, b, ln, sv, bud)
-                    if b == 10 and (not heavy or a == 0 or thorough): add('q_to_chars_def', cfg, uw, t, a, b, ln, sv, bud)
+                    if not heavy or a == 0: add('q_roundtrip', cfg, uw, t, a, b, ln, sv, bud)
+                    if b == 10 and (not heavy or a == 0): add('q_to_chars_def', cfg, uw, t, a, b, ln, sv, bud)
                     if thorough and b in (10, 36) and a in (0, (1 << (bits - s)) - 1): out.append(q('q_oracle_model', dict(cfg), uw, ub, sv, bud))
-        if thorough and bits == 32 and (s == 0 or b != 10):
+        if thorough and bits == 32 and (s == 0 or b != 10) and (t, b) in QUICKWIDE + [('int', 2), ('unsigned', 8), ('int', 8), ('int', 36)]:
             # full value range: reference text as oracle, exported VC decided by z3 (word level), SAT as fallback.
             # (int base 10 and the 64-bit types gave no verdict within the budget: outside the bound)
             for ln in sorted({1, nd, mt + 1}):
@@ -169,8 +178,8 @@ def queries(tier, prop='C10'):
     # ---- to_string<CAP>
     for t in ['int', 'unsigned', 'long', 'unsigned long'] + (['long long', 'unsigned long long'] if thorough else []):
         bits, s = TYPES[t]
-        anc = anchors(t, 10, thorough and bits == 32)
-        if not thorough: anc = [x for x in anc if x in (0, (1 << (bits - s)) - 1, 1 << (bits - 1))]
+        anc = anchors(t, 10, False)
+        if True: anc = [x for x in anc if x in (0, (1 << (bits - s)) - 1, 1 << (bits - 1))]
         for a in anc:
             na = textlen(t, a, 10)
             for cap in ([1, 2, 3] if a == 0 else [na, na + 1]):
